@@ -1,13 +1,16 @@
 /-
 C08 — Negotiation picks a closed, parent-first commit set covering every want.
 Property theorems only. Model: Model/Finder.lean (pkg/api/utils/closed_sets_finder.go). The theorems
-are about the walk from one want (`walkWant`, the core of `enqueueWants`); the multi-round /
-multi-want bookkeeping (`Process`) is tied to the code by the correspondence runs and the same
-clauses (`finderVerdict`) evaluated by Lean on the implementation's actual output.
+are about the walk from one want (`walkWant`, the core of `enqueueWants`) and, across wants, about
+one whole call of `enqueueWants` (`C08_all_wants`: one negotiation round or the final
+`CommitsToSend`); the round-to-round bookkeeping of `Process` (reachability of wants, discovery of
+commons) is tied to the code by the correspondence runs and the same clauses (`finderVerdict`)
+evaluated by Lean on the implementation's actual output.
 -/
 import WrglModel.Model.Finder
 import WrglModel.Spec.Finder
 import WrglModel.Lemmas.C08
+import WrglModel.Lemmas.C08Multi
 import WrglModel.Gen.Facts
 namespace Wrgl
 
@@ -47,6 +50,29 @@ theorem C08_parent_first (g : Graph) (hwf : g.wf = true) (hac : Acyclic g)
     (a p : Nat) (i : Nat) (hi : firstIndex cl a = some i) (hp : p ∈ parentsOf g a) :
     commons.contains p = true ∨ p ∈ cl.take i :=
   walkWant_parent_first _ g hwf hac commons depth w hw fuel cl tl sums steps h a p i hi hp
+
+
+/-- Across wants (one call of `enqueueWants` with any number of wants, in any order, duplicates and
+    nested wants included; later wants skip what earlier ones listed): the lists added by the call,
+    concatenated, are closed for every want not left pending, acceptable to the receiver at EVERY
+    position, and contain only ancestors of wants. -/
+theorem C08_all_wants (g : Graph) (hwf : g.wf = true) (hac : Acyclic g)
+    (depth fuel : Nat) (stop : Bool) (ws : List Nat) (hws : ∀ w ∈ ws, (g.get? w).isSome = true)
+    (f f' : Finder) (pending : List Nat)
+    (h : enqueueWants Facts.finderRevisitsWithinDepth g depth stop fuel ws f [] [] = .ok (f', pending)) :
+    ∃ newLists : List (List Nat), f'.commitLists = f.commitLists ++ newLists ∧ f'.commons = f.commons ∧
+    (∀ w ∈ ws, w ∉ pending → ∀ a, Reach g a w → a ∈ newLists.flatten ∨ ∃ s ∈ f.commons, Reach g a s) ∧
+    (∀ (i : Nat) (c : Nat), newLists.flatten[i]? = some c → ∀ p ∈ parentsOf g c,
+        p ∈ f.commons ∨ p ∈ newLists.flatten.take i) ∧
+    (∀ a ∈ newLists.flatten, ∃ w ∈ ws, Reach g a w) :=
+  enqueueWants_spec _ g hwf hac depth fuel stop ws hws f f' pending h
+
+/-- non-vacuity of `C08_all_wants`: two nested wants on a chain, the older one walked second -/
+example :
+    let g : Graph := [{ id := 1, time := 1, parents := [] }, { id := 2, time := 2, parents := [1] }, { id := 3, time := 3, parents := [2] }]
+    (match enqueueWants true g 0 false 10 [3, 2] Finder.init [] [] with
+     | .ok (f, p) => (f.commitLists, p)
+     | _ => ([], [0])) = ([[1, 2, 3], []], []) := by decide
 
 /-- The walk terminates on every (acyclic) history. -/
 theorem C08_terminates (g : Graph) (hwf : g.wf = true) (hac : Acyclic g)
